@@ -545,6 +545,7 @@ C01.defined: wherever constraints_and_type_name renders a component with the `<P
     ctx.floor("C01.text2tok/fns-with-sites", sites.len(), 12);
     ctx.extra.insert("text2tok_sites".into(), json!(sites));
     defined(m, ctx, "C01.defined");
+    inner_names(m, ctx, "C01.inner");
     // names that are referred to are the names that are generated (shared with C02.defname)
     crate::rules::c02::defname(m, ctx, "C01.defname");
     // the type of a component and the type of its DEFAULT function / value are chosen by two selectors (shared with C06.agree)
@@ -557,6 +558,108 @@ C01.defined: wherever constraints_and_type_name renders a component with the `<P
 /// `<Parent><Field>` (inner_name); the definition of that type is only emitted when `needs_unnesting` says so. The two
 /// are evaluated on every nesting shape of anonymous types under SEQUENCE OF / SET OF up to depth 3: wherever the
 /// rendered type mentions the inner name, the definition must be requested.
+/// C01.inner: an anonymous constructed component is hoisted into a type of its own, *defined* under
+/// inner_name(<ASN.1 identifier>, <parent>) and *referred to* from the parent's field. Both sides must build the name from the
+/// same spelling. (1) format_member_or_option — the reference side — is evaluated with a component whose Rust identifier
+/// differs from its ASN.1 identifier (`stationID` / `station_id`): the type it returns is inner_name(ASN.1 identifier, parent).
+/// (2) no call of inner_name anywhere is fed a rendered Rust identifier (an Ident / TokenStream / the result of a to_rust_*
+/// mangler, directly or through `.to_string()`).
+pub fn inner_names(m: &Model, ctx: &mut Ctx, rule: &str) {
+    if let Some(f) = anchor_fn(m, ctx, rule, Some("Rasn"), "format_member_or_option", None) {
+        let consts = const_resolver(m);
+        let okv = |v: Val| Val::Ctor("Ok".into(), vec![v], BTreeMap::new());
+        let hook = |_: &Evaluator, name: &str, a: &[Val]| -> Option<Result<Val, String>> {
+            let field = |k: &str| match a.first() { Some(Val::Ctor(_, _, f)) => f.get(k).cloned(), _ => None };
+            match name {
+                ".ty" | ".name" | ".is_recursive" | ".constraints" | ".tag" if a.len() == 1 => field(&name[1..]).map(Ok),
+                ".constraints_and_type_name" => Some(Ok(okv(Val::Tuple(vec![Val::List(vec![]), Val::Sym("STRUCTURAL".into())])))),
+                "Self::needs_unnesting" | "Rasn::needs_unnesting" => Some(Ok(Val::Bool(true))),
+                ".inner_name" => Some(Ok(Val::Sym(format!("INNER<{}|{}>", a.get(1).map(|v| v.show()).unwrap_or_default().trim_matches('"'), a.get(2).map(|v| v.show()).unwrap_or_default().trim_matches('"'))))),
+                ".format_range_annotations" | ".format_alphabet_annotations" | ".join_annotations" => Some(Ok(okv(Val::Sym("".into())))),
+                ".format_tag" | ".format_identifier_annotation" => Some(Ok(Val::Sym("".into()))),
+                ".to_token_stream" | ".to_owned" | ".clone" if a.len() == 1 => Some(Ok(a[0].clone())),
+                ".to_string" if a.len() == 1 => Some(Ok(match &a[0] { Val::Sym(s) => Val::Str(s.clone()), o => o.clone() })),
+                "boxed_type" => Some(Ok(a.first().cloned().unwrap_or(Val::Unit))),
+                "op:ne" | "op:eq" => None,
+                _ => None,
+            }
+        };
+        let ev = Evaluator { consts: &consts, call_hook: &hook, inline: None };
+        let params: Vec<String> = f.sig.inputs.iter().filter_map(|a| match a { syn::FnArg::Typed(t) => Some(tok(&t.pat)), _ => None }).collect();
+        ctx.oblige(rule, "reference-side", true);
+        if params.len() < 3 {
+            ctx.fail_closed(rule, "format_member_or_option: expected (member, parent name, rust identifier, ..)");
+        } else {
+            let mut me = BTreeMap::new();
+            me.insert("name".to_string(), Val::Str("stationID".into()));
+            me.insert("ty".to_string(), Val::Ctor("Sequence".into(), vec![Val::Opaque("payload".into())], BTreeMap::new()));
+            me.insert("is_recursive".to_string(), Val::Bool(false));
+            me.insert("constraints".to_string(), Val::List(vec![]));
+            me.insert("tag".to_string(), Val::none());
+            let mut env = Env::new();
+            env.insert("self".into(), Val::ctor("Rasn"));
+            env.insert(params[0].clone(), Val::Ctor("SequenceOrSetMember".into(), vec![], me));
+            env.insert(params[1].clone(), Val::Str("Station".into()));
+            env.insert(params[2].clone(), Val::Sym("station_id".into()));
+            for p in params.iter().skip(3) {
+                env.insert(p.clone(), if p.contains("default") { Val::none() } else { Val::Sym("".into()) });
+            }
+            match ev.eval_fn_body(&f.block, &mut env) {
+                Ok(Val::Ctor(ok, p, _)) if ok == "Ok" => {
+                    let ty = match p.first() { Some(Val::Ctor(_, _, fl)) => fl.get("formatted_type_name").map(|v| v.show()).unwrap_or_default(), o => format!("{:?}", o.map(|v| v.show())) };
+                    if ty != "INNER<stationID|Station>" {
+                        ctx.violate(rule, "reference-side", &f.file, f.line, &format!("format_member_or_option for the hoisted component `stationID` (Rust field `station_id`) of `Station` refers to the type `{}`; the definition is emitted under inner_name(\"stationID\", \"Station\") — built from another spelling the two names differ (`StationStationID` vs `StationStationId`) and the bindings do not resolve", ty));
+                    }
+                }
+                Ok(o) => ctx.fail_closed(rule, &format!("[format_member_or_option]: {}", o.show().chars().take(120).collect::<String>())),
+                Err(e) => ctx.fail_closed(rule, &format!("[format_member_or_option]: {}", e)),
+            }
+        }
+    }
+    // (2) every call site
+    let mut sites = 0;
+    for f in m.fns.iter().filter(|f| f.module.starts_with("generator::rasn")) {
+        for mc in model::method_calls_in(&f.block).into_iter().filter(|mc| mc.method == "inner_name") {
+            sites += 1;
+            let Some(arg) = mc.args.first() else { continue };
+            let t = tok(arg);
+            ctx.oblige(rule, &format!("call:{}:{}", f.name, t), true);
+            // the spelling handed in: follow one level of `let`
+            let base = t.trim_start_matches('&').split(|c: char| !(c.is_alphanumeric() || c == '_')).next().unwrap_or("").to_string();
+            let mut rendered = t.contains(".to_string()") || t.contains("to_rust_") || t.contains("to_token_stream");
+            for a in f.sig.inputs.iter() {
+                if let syn::FnArg::Typed(pt) = a {
+                    if tok(&pt.pat) == base {
+                        let ty = tok(&pt.ty);
+                        if ty.contains("Ident") || ty.contains("TokenStream") {
+                            rendered = true;
+                        }
+                    }
+                }
+            }
+            struct L<'a> { base: &'a str, hit: bool }
+            impl<'a> model::DeepCb for L<'a> {
+                fn local(&mut self, l: &syn::Local) {
+                    if tok(&l.pat).trim_start_matches("mut ") == self.base {
+                        if let Some(i) = &l.init {
+                            let t = tok(&i.expr);
+                            if t.contains("to_rust_") || t.contains("format_ident!") || t.contains("Ident::new") {
+                                self.hit = true;
+                            }
+                        }
+                    }
+                }
+            }
+            let mut lc = L { base: &base, hit: false };
+            model::deep_walk_block(&f.block, &mut lc);
+            if rendered || lc.hit {
+                ctx.violate(rule, &format!("rendered-identifier:{}", f.name), &f.file, span_line(&mc), &format!("{} calls inner_name({}, ..) with a rendered Rust identifier: the hoisted type is defined under inner_name(<ASN.1 identifier>, <parent>), and the two spellings differ for identifiers such as `stationID` or `type`", f.name, t));
+            }
+        }
+    }
+    ctx.floor(&format!("{}/inner_name-call-sites", rule), sites, 4);
+}
+
 pub fn defined(m: &Model, ctx: &mut Ctx, rule: &str) {
     let (Some(nu), Some(ct)) = (anchor_fn(m, ctx, rule, Some("Rasn"), "needs_unnesting", None), anchor_fn(m, ctx, rule, Some("Rasn"), "constraints_and_type_name", None)) else { return };
     let consts = const_resolver(m);
